@@ -1345,7 +1345,7 @@ def run_e2e(ctx, root):
     peer = b"127.0.0.1"
     fwd_sets = [[(b"127.0.0.1", b"trust")], [(b"127.0.0.0/8", b"trust"), (b"10.0.0.1", b"trust")],
                 [(b"10.0.0.1", b"trust")], [(b"all", b"trust")], None]
-    ncfg, nreq = 24, 40
+    ncfg, nreq = 60, 40
     cases = []
     for ci in range(ncfg):
         lc = rng.random() < 0.4
@@ -1395,7 +1395,11 @@ def run_e2e(ctx, root):
             ctx.keys["e2e:%d:%s:%s" % (rq.kind, st, "file" if st == "200" else "-")] += 1
             sent = body if st == "200" and body in FILES else None
             if sent is not None:
-                addr, _ = ref_addr(cfg, rq, unhx(muri) if muri != "-" else b"")
+                addr, exact = ref_addr(cfg, rq, unhx(muri) if muri != "-" else b"")
+                if not exact:
+                    # header outside the reference grammar: the address is not observable here; take the
+                    # model's (validated against the implementation by the in-process streams)
+                    addr = unhx(maddr)
                 why = ref_authorised(cfg, rq, sent, addr)
                 if why:
                     nhit += 1
@@ -1466,6 +1470,53 @@ def run(ctx):
         "(design limits, stated as theorems and witnessed by the limits stream)"]
 
 
+def parse_case(line):
+    """rebuild (Config, [Request]) from an `srv` line (for replays: the oracle needs them)"""
+    t = line.split(" ")
+    sep = t.index("/")
+    flags, lc = int(t[3]), t[4] == "1"
+
+    def lst(x):
+        return None if x == "~" else ([] if x == "." else [unhx(v) for v in x.split(",")])
+    blocks = []
+    for bt in t[6:sep]:
+        sc, al, dn, au, ex, fw, fh = bt.split("|")
+        if sc == "G":
+            scope = Scope("G")
+        elif sc[0] in "UH":
+            scope = Scope(sc[0], op=sc[1], val=unhx(sc.split(":")[1]))
+        elif sc[0] == "R":
+            _, rk, lit = sc.split(":")
+            scope = Scope("R", rkind=rk, val=unhx(lit), neg=sc[1] == "1")
+        else:
+            _, fam, a, bits = sc.split(":")
+            net = str(ipaddress.ip_address(bytes.fromhex(a)))
+            scope = Scope("I", neg=sc[1] == "1", net=net + ("/" + bits if bits != "0" else ""))
+        fwd = None if fw == "~" else ([] if fw == "-" else [tuple(unhx(x) for x in e.split("=")) for e in fw.split(",")])
+        blocks.append(Block(scope, lst(al), lst(dn), lst(au), lst(ex), fwd, lst(fh)))
+    cfg = Config(blocks, [], lc)
+    cfg.flags = flags
+    cfg.text = lambda: unhx(t[1])
+    reqs = []
+    for rt in t[sep + 1:]:
+        f = rt.split(",")
+        if f[0] == "1":
+            head = unhx(f[2])
+            ls = head.split(b"\r\n")
+            target = ls[0].split(b" ")[1]
+            absolute = None
+            m = re.match(rb"(?i)https?://([^/]*)(/.*)", target)
+            if m:
+                absolute, target = m.group(1), m.group(2)
+            fields = [tuple(x.split(b": ", 1)) for x in ls[1:] if b": " in x]
+            host = next((v for k, v in fields if k.lower() == b"host"), None)
+            reqs.append(Request(1, unhx(f[1]), target, host, [(k, v) for k, v in fields if k.lower() != b"host"], absolute))
+        else:
+            fields = [] if f[5] == "-" else [tuple(unhx(x) for x in e.split(":")) for e in f[5].split(";")]
+            reqs.append(Request(2, unhx(f[1]), unhx(f[3]), unhx(f[4]), fields))
+    return cfg, reqs
+
+
 def replay_line(ctx, rep):
     exe, err = build()
     root = make_root()
@@ -1492,7 +1543,18 @@ def replay_line(ctx, rep):
                     return 0
                 print("VIOLATION property=%s replay=%s" % (ctx.pid, "(replayed)"))
                 return 1
-    if o != m or rc != 0:
+    v = None
+    if o and line.startswith("srv ") and not rep.get("known"):
+        try:
+            _cases[line] = parse_case(line)
+            v = srv_oracle(line, o[0])
+        except (ValueError, IndexError) as ex:
+            print("(case not reconstructed for the oracle: %s)" % ex)
+    elif o:
+        for orc in (match_oracle, addr_oracle, xff_oracle):
+            v = v or orc(line, o[0])
+    print("oracle:", v)
+    if o != m or rc != 0 or v:
         print("VIOLATION property=%s replay=%s" % (ctx.pid, "(replayed)"))
         return 1
     return 0
